@@ -48,13 +48,19 @@ let () =
         let uri = match Stdlib.String.index_opt target '?' with Some i -> Stdlib.String.sub target 0 i | None -> target in
         let with_ct = Stdlib.Array.length f > 4 && f.(4) = "ct" in
         let ws = Stdlib.Array.length f > 5 && f.(5) = "ws" in
+        (* the header fields the harness client sends, in its order *)
         let hs = (match get 0 with Some h -> [ (Http.HKnown TablesHttp.coq_H_Host, bytes_of_string h) ] | None -> [])
                  @ (match get 3 with Some x -> [ (Http.coq_XFF, bytes_of_string x) ] | None -> [])
-                 @ (if ws then [ (Http.HKnown TablesHttp.coq_H_Upgrade, bytes_of_string "websocket") ] else []) in
-        let req = { Http.r_method = n_of_int 0; Http.r_uri = bytes_of_string uri; Http.r_query = []; Http.r_version = bytes_of_string "HTTP/1.1";
+                 @ (if ws then [ (Http.HKnown TablesHttp.coq_H_Upgrade, bytes_of_string "websocket") ]
+                    else [ (Http.HKnown TablesHttp.coq_H_Connection, bytes_of_string "close") ]) in
+        let query = match Stdlib.String.index_opt target '?' with
+          | Some i -> Stdlib.String.sub target (i + 1) (Stdlib.String.length target - i - 1) | None -> "" in
+        let req = { Http.r_method = n_of_int 0; Http.r_uri = bytes_of_string uri; Http.r_query = bytes_of_string query; Http.r_version = bytes_of_string "HTTP/1.1";
                     Http.r_headers = hs; Http.r_content = None;
                     Http.r_addr = { Http.a_origin = []; Http.a_proxies = []; Http.a_port = n_of_int 0 } } in
-        let peer = { Http.p_ip = bytes_of_string (match get 2 with Some ip -> ip | None -> "127.0.0.1"); Http.p_port = n_of_int 1 } in
+        let peer0 = { Http.p_ip = bytes_of_string (match get 2 with Some ip -> ip | None -> "127.0.0.1"); Http.p_port = n_of_int 1 } in
+        let peer = peer0 in
+        let req = { req with Http.r_addr = Http.address_of ipp hs peer } in
         match Server.serve_text ipp fs files (bytes_of_string "e2e.conf") (bytes_of_string conf) peer req with
         | None -> "conf-error"
         | Some Server.SDropped -> "noresp"
@@ -63,7 +69,14 @@ let () =
         | Some Server.SWsOnly -> "404"
         | Some Server.SPanic -> "panic"
         | Some (Server.SRedirect l) -> "301:loc:" ^ hex_of_bytes l
-        | Some (Server.SProxy (_, _, _)) -> "proxy"
+        | Some (Server.SProxy (targets, _, _)) ->
+          (* to the echoing mock origin (@UPE@) the answer is the forwarded request itself: prefix stripped, one more
+             X-Forwarded-For naming the origin address (Proxy.upstream_bytes, C09) *)
+          if targets = [ bytes_of_string "@UPE@" ] then begin
+            match Server.forwarded_text ipp fs files (bytes_of_string "e2e.conf") (bytes_of_string conf) peer req with
+            | Some b -> "200:body:" ^ hex_of_bytes b
+            | None -> "panic"
+          end else "proxy"
         | Some (Server.SWsProxy t) -> "ws:" ^ hex_of_bytes t
         | Some Server.SClosed -> "noresp"
         | Some (Server.SStatic (StaticFs.R200 (b, ct))) ->
